@@ -1,0 +1,77 @@
+//go:build verif
+// +build verif
+
+package main
+
+// Hook for /verif property C20 (deterministic compilation): exposes the
+// unexported listDir and findFiles through a hidden sub-command so that the
+// harness can run the REAL functions on scratch directories.
+//
+//	wuffs verif-listdir   (stdin: one request per line)
+//	  listdir <dir-hex> <suffix-hex> <0|1>   -> files=<hex,hex…> dirs=<hex,hex…>   or err
+//	  findfiles <dir-hex> <suffix-hex>       -> files=<hex,hex…>                    or err
+
+import (
+	"bufio"
+	"encoding/hex"
+	"fmt"
+	"os"
+	"strings"
+)
+
+func init() {
+	commands = append(commands, struct {
+		name string
+		do   func(wuffsRoot string, args []string) error
+	}{"verif-listdir", doVerifListDir})
+}
+
+func verifHexList(ss []string) string {
+	if len(ss) == 0 {
+		return "-"
+	}
+	q := make([]string, len(ss))
+	for i, s := range ss {
+		q[i] = hex.EncodeToString([]byte(s))
+		if q[i] == "" {
+			q[i] = "-"
+		}
+	}
+	return strings.Join(q, ",")
+}
+
+func doVerifListDir(wuffsRoot string, args []string) error {
+	in := bufio.NewScanner(os.Stdin)
+	in.Buffer(make([]byte, 1<<20), 1<<26)
+	out := bufio.NewWriter(os.Stdout)
+	defer out.Flush()
+	unhex := func(s string) string {
+		if s == "-" {
+			return ""
+		}
+		b, _ := hex.DecodeString(s)
+		return string(b)
+	}
+	for in.Scan() {
+		f := strings.Fields(in.Text())
+		switch {
+		case len(f) == 4 && f[0] == "listdir":
+			qf, rd, err := listDir(unhex(f[1]), unhex(f[2]), f[3] == "1")
+			if err != nil {
+				fmt.Fprintln(out, "err")
+			} else {
+				fmt.Fprintf(out, "files=%s dirs=%s\n", verifHexList(qf), verifHexList(rd))
+			}
+		case len(f) == 3 && f[0] == "findfiles":
+			qf, err := findFiles(unhex(f[1]), unhex(f[2]))
+			if err != nil {
+				fmt.Fprintln(out, "err")
+			} else {
+				fmt.Fprintf(out, "files=%s\n", verifHexList(qf))
+			}
+		default:
+			fmt.Fprintln(out, "bad-request")
+		}
+	}
+	return nil
+}
